@@ -27,6 +27,15 @@ def eval_pred(e, env, module):
         if e.id in module.globals:
             return eval_pred(module.globals[e.id], env, module)
         raise Undecidable('name %s' % e.id)
+    if isinstance(e, ast.IfExp):
+        return eval_pred(e.body, env, module) if eval_pred(e.test, env, module) else eval_pred(e.orelse, env, module)
+    if isinstance(e, ast.BinOp) and isinstance(e.op, ast.Add):
+        return eval_pred(e.left, env, module) + eval_pred(e.right, env, module)
+    if isinstance(e, ast.JoinedStr):
+        out = ''
+        for v in e.values:
+            out += str(eval_pred(v.value if isinstance(v, ast.FormattedValue) else v, env, module))
+        return out
     if isinstance(e, ast.UnaryOp) and isinstance(e.op, ast.Not):
         return not eval_pred(e.operand, env, module)
     if isinstance(e, ast.BoolOp):
@@ -78,10 +87,12 @@ def eval_pred(e, env, module):
         f = e.func
         args = [eval_pred(a, env, module) for a in e.args]
         if isinstance(f, ast.Attribute):
-            if f.attr in ('startswith', 'endswith', 'find', 'count', 'lower', 'upper', 'strip', 'split', 'rsplit'):
+            if f.attr in ('startswith', 'endswith', 'find', 'count', 'lower', 'upper', 'strip', 'split', 'rsplit', 'rstrip',
+                          'lstrip', 'replace', 'format', 'join'):
                 recv = eval_pred(f.value, env, module)
                 if isinstance(recv, str):
-                    return getattr(recv, f.attr)(*args)
+                    kw = {k.arg: eval_pred(k.value, env, module) for k in e.keywords if k.arg}
+                    return getattr(recv, f.attr)(*args, **kw)
             if f.attr in ('match', 'search', 'fullmatch', 'compile'):
                 base = None
                 if isinstance(f.value, ast.Name) and module.imports.get(f.value.id, '') == 're':
